@@ -107,6 +107,11 @@ def _kind(o):
     return o[0]
 
 
+def _cls(label):
+    f = G.FORM_BY_NAME.get(label)
+    return f.klass if f is not None else "flat:" + label
+
+
 def script_for(kind, src, di):
     return (
         "import jinja2\nfrom jinja2.sandbox import SandboxedEnvironment\nfrom vf import gen_expr as G\n"
@@ -130,7 +135,7 @@ def check_case(p, section, label, ast, src, kind, data_ids):
         got = jinja_outcomes(kind, src, datas)
     except core.CaseTimeout:
         p.evals += 1
-        p.violation(f"C02/{section}/hang/{label}", {"msg": f"[{kind}] {src!r}: no answer within 20 s",
+        p.violation(f"C02/hang/{_cls(label)}", {"msg": f"[{kind}] {src!r}: no answer within 20 s",
                                                     "script": script_for(kind, src, data_ids[0])})
         return
     for di, ref, (vo, ro) in zip(data_ids, refs, got):
@@ -146,14 +151,14 @@ def check_case(p, section, label, ast, src, kind, data_ids):
         if ref[0] == "ok":
             p.count("evaluated_to_value")
         if vo != ev:
-            p.violation(f"C02/{section}/value/{label}/{_kind(ev)}->{_kind(vo)}", {
+            p.violation(f"C02/value/{_cls(label)}/{_kind(ev)}->{_kind(vo)}", {
                 "msg": f"[{kind}, data {di}] {src!r}: value {vo!r}, reference {ev!r}",
-                "env": kind, "source": src, "data": di, "got": repr(vo), "expected": repr(ev),
+                "env": kind, "source": src, "data": di, "got": repr(vo), "expected": repr(ev), "form": label, "section": section,
                 "script": script_for(kind, src, di)})
         if ro != er:
-            p.violation(f"C02/{section}/render/{label}/{_kind(er)}->{_kind(ro)}", {
+            p.violation(f"C02/render/{_cls(label)}/{_kind(er)}->{_kind(ro)}", {
                 "msg": f"[{kind}, data {di}] {{{{ {src} }}}}: rendered {ro!r}, reference {er!r}",
-                "env": kind, "source": src, "data": di, "got": repr(ro), "expected": repr(er),
+                "env": kind, "source": src, "data": di, "got": repr(ro), "expected": repr(er), "form": label, "section": section,
                 "script": script_for(kind, src, di)})
 
 
